@@ -221,6 +221,16 @@ fn run_history(hist: &[Act], plain: bool, files: &BTreeMap<String, String>) -> R
                                 json!({"context": kind, "history": describe(&hist[..=i]), "model_expects_adds": k, "observed_adds": data[0][0]}),
                             ));
                         }
+                        // the same binding serves the inverse direction (round 10: the inverse loop of a
+                        // pipeline chose its stack steps by name alone and bypassed a user operator named `push`)
+                        let mut back = [Coor4D([0., 0., 0., 0.])];
+                        let n = ctxs[*c as usize].apply(h, Inv, &mut back).unwrap_or(usize::MAX);
+                        if n != 1 || back[0][0] != -(k as f64) {
+                            return Err((
+                                format!("definition resolved differently in the inverse direction / {name_class}"),
+                                json!({"context": kind, "history": describe(&hist[..=i]), "model_expects_adds": -k, "observed_adds": back[0][0]}),
+                            ));
+                        }
                         live.push(Live { ctx: *c as usize, handle: h, k, steps, params, fp, created_by: act.text() });
                     }
                 }
